@@ -53,11 +53,15 @@ val step_spread : env -> acc -> node -> acc
 
 val attr_step : env -> bool -> acc -> node -> acc
 
+val has_flag : coq_N -> coq_N -> bool
+
 val compute_flags : acc -> coq_N
 
 type attrs_result = { r_attrs : node; r_flags : coq_N;
                       r_dyn : str list option; r_slots : node option;
                       r_dirs : directive list; r_st : st }
+
+val final_attrs_expr : env -> acc -> node * st
 
 val transform_attrs : env -> node list -> bool -> st -> attrs_result
 
